@@ -228,6 +228,11 @@ var ctorsByProto = map[string][]ctorEntry{}
 
 var c02Consts = hostileConstants(12000)
 
+var keySweepFull = map[string]bool{
+	"cbor.Decode(Value)+MarshalJSON": true, "cbor.Decode(LazyValue)+Decode+MarshalJSON": true, "cbor.Decode(any)": true,
+	"cbor.DecodeIdFromList": true, "cbor.DecodeById": true, "ledger.NewTransactionOutputFromCbor": true,
+}
+
 func c02Init() {
 	loadSeeds()
 	if len(ctorsByProto) == 0 {
@@ -248,6 +253,13 @@ func genC02Input(rt *rapid.T, e *c02Entry, v *int, uniformMax int) c02Input {
 		in.Desc = append(in.Desc, fmt.Sprintf("uniform %d bytes", len(in.Data)))
 		in.Kinds = append(in.Kinds, "uniform")
 		return in
+	case mode == 3:
+		key, kname := genMapKey(rt)
+		ps := mapKeyPositions(key)
+		pn := ps[rapid.IntRange(0, len(ps)-1).Draw(rt, "keyPosition")]
+		in.Data = pn.Node.Encode()
+		in.Desc = append(in.Desc, "map key "+kname+" @ "+pn.Name)
+		in.Kinds = append(in.Kinds, "mapkey-constant")
 	case mode == 2:
 		hc := rapid.SampledFrom(c02Consts).Draw(rt, "hostile")
 		in.Data = hc.Data
@@ -468,6 +480,37 @@ func TestC02(t *testing.T) {
 	}
 	outOfTime := false
 	sweepViolKeys := map[string]bool{}
+	keyConsts := mapKeyConstants()
+	rec.SetExtra("map_key_constants", len(keyConsts))
+	sweepOne := func(ei, v int, name string, data []byte) (stop bool) {
+		in := c02Input{Data: data, Desc: []string{"hostile constant " + name}, Kinds: []string{"sweep"}}
+		tj := time.Now()
+		vd := h.judge(ei, v, data)
+		sweepJudge += time.Since(tj)
+		sweepCalls++
+		if len(data) > 1024 {
+			sweepBig++
+			sweepBigDur += time.Since(tj)
+		}
+		record(ei, v, in, vd)
+		if vd.Key == "harness" {
+			fmt.Printf("HARNESS-ERROR property=C02 %s\n", vd.What)
+			t.Fatalf("harness: %s", vd.What)
+		}
+		if vd.Key != "" {
+			if !rec.Violation(vd.Key, vd.What+" (input: "+name+")", caseOf(ei, v, in, vd)) {
+				sweepViolKeys[vd.Key] = true
+			}
+		}
+		if len(sweepViolKeys) >= 8 {
+			return true // enough to report; every further crash costs two worker restarts
+		}
+		if time.Now().After(budgetEnd) {
+			outOfTime = true
+			return true
+		}
+		return false
+	}
 sweep:
 	for ei, e := range c02Entries {
 		if e.Hidden || ei%sweepParts != sweepPart {
@@ -487,30 +530,24 @@ sweep:
 					// the generic decoder front end that sees the big bombs first
 					continue
 				}
-				in := c02Input{Data: hc.Data, Desc: []string{"hostile constant " + hc.Name}, Kinds: []string{"sweep"}}
-				tj := time.Now()
-				vd := h.judge(ei, v, hc.Data)
-				sweepJudge += time.Since(tj)
-				sweepCalls++
-				if len(hc.Data) > 1024 {
-					sweepBig++
-					sweepBigDur += time.Since(tj)
+				if sweepOne(ei, v, hc.Name, hc.Data) {
+					break sweep
 				}
-				record(ei, v, in, vd)
-				if vd.Key == "harness" {
-					fmt.Printf("HARNESS-ERROR property=C02 %s\n", vd.What)
-					t.Fatalf("harness: %s", vd.What)
+			}
+			// every key kind x every container position: the generic value decoders
+			// (all their variants) and the first two message types of each protocol
+			// full matrix on the entry points that build Go maps from arbitrary keys,
+			// two positions (top-level map, tagged-sum list with a slow-path id)
+			// on the first variant of the others and the first two message types
+			full := keySweepFull[e.Name] && (v == 0 || e.Name == "cbor.Decode(typed)")
+			if !full && (e.Era != nil || v >= 2 || (e.Variants != 32 && v >= 1)) {
+				continue
+			}
+			for _, hc := range keyConsts {
+				if !full && !strings.HasSuffix(hc.Name, "@top-level-map") && !strings.HasSuffix(hc.Name, "@idlist-nonminimal-id") {
+					continue
 				}
-				if vd.Key != "" {
-					if !rec.Violation(vd.Key, vd.What+" (input: "+hc.Name+")", caseOf(ei, v, in, vd)) {
-						sweepViolKeys[vd.Key] = true
-					}
-				}
-				if len(sweepViolKeys) >= 8 {
-					break sweep // enough to report; every further crash costs two worker restarts
-				}
-				if time.Now().After(budgetEnd) {
-					outOfTime = true
+				if sweepOne(ei, v, hc.Name, hc.Data) {
 					break sweep
 				}
 			}
